@@ -152,6 +152,88 @@ pub fn respell(args: &[String]) -> Vec<String> {
   out
 }
 
+pub static CWD_SHIFTED: std::sync::atomic::AtomicU64 = std::sync::atomic::AtomicU64::new(0);
+
+/// The same command line as seen from another working directory: every relative path given to a path option (or as the
+/// positional input) gets `prefix` in front. Returns None when the line has nothing to rewrite or is not understood.
+pub fn reprefix(args: &[String], prefix: &str) -> Option<Vec<String>> {
+  let ti = args.iter().position(|a| a == "torrent")?;
+  let sub = args.get(ti + 1).map(|s| s.as_str())?;
+  if !matches!(sub, "create" | "verify" | "show" | "link") {
+    return None;
+  }
+  // (short options mean different things under different subcommands: `-c` is a comment for create and the content for verify)
+  let path_opts: &[&str] = match sub {
+    "create" => &["--input", "-i", "--output", "-o"],
+    "verify" => &["--input", "-i", "--content", "-c", "--base-directory", "-b"],
+    _ => &["--input", "-i"],
+  };
+  // options that take values which are not paths (so that the positional input can be told apart)
+  let other_valued: &[&str] = match sub {
+    "create" => &["--allow", "-A", "--announce", "-a", "--announce-tier", "-t", "--comment", "-c", "--node", "--glob", "-g", "--name", "-N", "--peer", "--piece-length", "-p", "--sort-by", "--source", "-s", "--update-url"],
+    "link" => &["--peer", "-p", "--select-only", "-s"],
+    _ => &[],
+  };
+  let is_rel = |v: &str| !v.is_empty() && v != "-" && !v.starts_with('/') && !v.starts_with('-');
+  let mut out = args[..ti + 2].to_vec();
+  let mut i = ti + 2;
+  let mut touched = false;
+  while i < args.len() {
+    let a = &args[i];
+    if path_opts.contains(&a.as_str()) {
+      out.push(a.clone());
+      if let Some(v) = args.get(i + 1) {
+        if is_rel(v) {
+          out.push(format!("{prefix}{v}"));
+          touched = true;
+        } else {
+          out.push(v.clone());
+        }
+        i += 2;
+      } else {
+        i += 1;
+      }
+      continue;
+    }
+    if let Some((k, v)) = a.split_once('=') {
+      if path_opts.contains(&k) {
+        if is_rel(v) {
+          out.push(format!("{k}={prefix}{v}"));
+          touched = true;
+        } else {
+          out.push(a.clone());
+        }
+        i += 1;
+        continue;
+      }
+    }
+    if other_valued.contains(&a.as_str()) {
+      // these may take several values: copy until the next option
+      out.push(a.clone());
+      i += 1;
+      while i < args.len() && !args[i].starts_with('-') {
+        out.push(args[i].clone());
+        i += 1;
+      }
+      continue;
+    }
+    if a.starts_with('-') {
+      out.push(a.clone());
+      i += 1;
+      continue;
+    }
+    // a bare word in option position: the positional input (only directly after the subcommand, as `respell` puts it)
+    if i == ti + 2 && is_rel(a) {
+      out.push(format!("{prefix}{a}"));
+      touched = true;
+    } else {
+      return None;
+    }
+    i += 1;
+  }
+  if touched { Some(out) } else { None }
+}
+
 pub struct Cmd<'a> {
   pub bin: &'a str,
   pub args: Vec<String>,
@@ -213,12 +295,42 @@ impl<'a> Cmd<'a> {
   }
   pub fn run(self) -> Out {
     let mut c = Command::new(self.bin);
-    match &self.os_args {
-      Some(a) => c.args(a),
-      None if self.literal || std::env::var_os("VERIF_LITERAL_ARGS").is_some() => c.args(&self.args),
-      None => c.args(respell(&self.args)),
+    // A quarter of the path-taking command lines are run the way a shell would run them from inside a directory reached
+    // through a symbolic link: the working directory is `<shift>/lnk` (really `<shift>/deep/er`), PWD says `<shift>/lnk`, and
+    // every relative path climbs back with `..` - which means the parent of the real directory, not of the link's name.
+    let mut shift_dir: Option<PathBuf> = None;
+    let mut final_args: Option<Vec<String>> = None;
+    if self.os_args.is_none() && !self.literal && std::env::var_os("VERIF_LITERAL_ARGS").is_none() {
+      let spelled = respell(&self.args);
+      if let Some(cwd) = &self.cwd {
+        let pick = crate::report::fnv_str(&self.args.join("\u{2}"));
+        if pick % 4 == 0 && self.env.iter().all(|(k, _)| k != "PWD") {
+          if let (Some(parent), Some(name)) = (cwd.parent(), cwd.file_name().and_then(|n| n.to_str())) {
+            // (a directory of its own for every run: several runs may share a sandbox at the same time)
+            static SHIFT_N: std::sync::atomic::AtomicU64 = std::sync::atomic::AtomicU64::new(0);
+            let shift = parent.join(format!("{name}.shift{}", SHIFT_N.fetch_add(1, std::sync::atomic::Ordering::Relaxed)));
+            if let Some(re) = reprefix(&spelled, &format!("../../../{name}/")) {
+              if std::fs::create_dir_all(shift.join("deep/er")).is_ok() && (shift.join("lnk").exists() || std::os::unix::fs::symlink("deep/er", shift.join("lnk")).is_ok()) {
+                CWD_SHIFTED.fetch_add(1, std::sync::atomic::Ordering::Relaxed);
+                shift_dir = Some(shift);
+                final_args = Some(re);
+              }
+            }
+          }
+        }
+      }
+      if final_args.is_none() {
+        final_args = Some(spelled);
+      }
+    }
+    match (&self.os_args, &final_args) {
+      (Some(a), _) => c.args(a),
+      (None, Some(a)) => c.args(a),
+      (None, None) => c.args(&self.args),
     };
-    if let Some(cwd) = &self.cwd {
+    if let Some(shift) = &shift_dir {
+      c.current_dir(shift.join("lnk"));
+    } else if let Some(cwd) = &self.cwd {
       c.current_dir(cwd);
     }
     c.env_remove("RUST_BACKTRACE");
@@ -237,6 +349,18 @@ impl<'a> Cmd<'a> {
     }
     for k in &self.env_remove {
       c.env_remove(k);
+    }
+    // PWD as a shell would have set it: the way the working directory was reached
+    // (and for another quarter PWD is stale, as when the parent changed directory without exporting it: it names the
+    // directory above the real one)
+    if let Some(shift) = &shift_dir {
+      c.env("PWD", shift.join("lnk"));
+    } else if let Some(cwd) = &self.cwd {
+      let stale = crate::report::fnv_str(&self.args.join("\u{2}")) % 4 == 1;
+      match (stale, cwd.parent()) {
+        (true, Some(up)) => c.env("PWD", up),
+        _ => c.env("PWD", cwd),
+      };
     }
     for (k, v) in &self.env {
       c.env(k, v);
@@ -282,6 +406,10 @@ impl<'a> Cmd<'a> {
     let _ = writer.join();
     let stdout = t_out.join().unwrap();
     let stderr = t_err.join().unwrap();
+    if let Some(shift) = &shift_dir {
+      let _ = std::fs::remove_file(shift.join("lnk"));
+      let _ = std::fs::remove_dir_all(shift);
+    }
     Out { code: status.code(), signal: status.signal(), stdout, stderr, timed_out }
   }
 }
@@ -301,6 +429,19 @@ impl Sandbox {
     std::fs::create_dir_all(&root).unwrap();
     Sandbox { root }
   }
+  /// A sandbox on a memory file system when there is one (`/dev/shm`): there a directory lists its entries in the order
+  /// they were created (most recent first), not in hash order as on the disk, so that "whatever order the entries were
+  /// created in" is really exercised. Falls back to the ordinary place.
+  pub fn new_tmpfs(work: &Path, tag: &str) -> Sandbox {
+    let base = Path::new("/dev/shm");
+    if base.is_dir() {
+      let dir = base.join(format!("imdl-verif-{}", std::process::id()));
+      if std::fs::create_dir_all(&dir).is_ok() {
+        return Sandbox::new(&dir, tag);
+      }
+    }
+    Sandbox::new(work, tag)
+  }
   pub fn path(&self, rel: &str) -> PathBuf {
     self.root.join(rel)
   }
@@ -319,6 +460,12 @@ impl Sandbox {
 impl Drop for Sandbox {
   fn drop(&mut self) {
     let _ = std::fs::remove_dir_all(&self.root);
+    // (the per-process directory on the memory file system goes when its last sandbox goes)
+    if let Some(parent) = self.root.parent() {
+      if parent.starts_with("/dev/shm") {
+        let _ = std::fs::remove_dir(parent);
+      }
+    }
   }
 }
 
